@@ -43,7 +43,7 @@ pub fn run(ctx: &Ctx) -> i32 {
         ctx.nontrivial(2);
         return ctx.finish("replay of one recorded operation sequence", &[], vec![]);
     }
-    let n = ctx.args.ex_u64("n", ctx.args.pick(20000, 400000)) as usize;
+    let n = ctx.args.ex_u64("n", ctx.args.pick(50000, 400000)) as usize;
     par_for(n, |i| {
         if ctx.too_many_violations() {
             return;
@@ -67,7 +67,7 @@ pub fn run(ctx: &Ctx) -> i32 {
         ctx.floor("sequences_with_freeze_and_partial_add_and_resize", st[7].load(Relaxed), if q { 50 } else { 0 });
     }
     ctx.finish(
-        "generated operation sequences that respect the interface's preconditions (construction: new(h>=w, any tail hint incl. 0) + set; indexed phase: solver-like grammar of swap_rows, swap_columns inside the sparse region, freezing the last sparse column, row additions with start 0 (single-sparse-one source) or at the first dense column, column queries on valid indexed columns; un-indexed phase: arbitrary row additions, swaps, set, resize (same width or dropping all dense columns), dense-tail queries); widths 1..200 with emphasis on 63/64/65/127/128/129/191/192/193, tails 0..70 growing through freezes; every query answer (get on every defined cell at quiescent points, count_ones, row iterators as sets of ones, ones-in-column, non-zero columns, packed sub-rows through hook verif_words, height/width, clone) of both implementations compared with a Vec<Vec<{0,1,undefined}>> model. non-trivial = sequence with >= 1 freeze, >= 1 partial row addition and a resize; distinct by sequence seed",
+        "generated operation sequences that respect the interface's preconditions (construction: new(h>=w, any tail hint incl. 0) + set; indexed phase: solver-like grammar of swap_rows, swap_columns inside the sparse region, freezing the last sparse column, row additions with start 0 (single-sparse-one source) or at the first dense column, column queries on valid indexed columns; un-indexed phase: arbitrary row additions, swaps, set, resize (same width or dropping all dense columns), dense-tail queries); widths 1..420 with emphasis on 63/64/65/127/128/129/191/192/193/255/256/257, dense-tail hints 0..260 incl. exact multiples of 64, tails growing through freezes across word boundaries; every query answer (get on every defined cell at quiescent points, count_ones, row iterators as sets of ones, ones-in-column, non-zero columns, packed sub-rows through hook verif_words, height/width, clone) of both implementations compared with a Vec<Vec<{0,1,undefined}>> model. non-trivial = sequence with >= 1 freeze, >= 1 partial row addition and a resize; distinct by sequence seed",
         &["admissible-sequence grammar collected from the trait comments, asserts and unimplemented!() branches of both implementations; cells left of start_col after a partial row addition are undefined and excluded", "degenerate empty spans (start_col = end_col) and an index built on an all-zero sparse part are treated as outside the interface"],
         vec![],
     )
